@@ -459,7 +459,7 @@ impl Prop for SaturateProp {
         vec!["stop_saturated", "stop_iteration_limit", "stop_node_limit", "stop_time_limit", "stop_other_hook", "apply_rewrites_false_seen", "change_without_new_nodes", "hook_shrank_the_graph_from_above_the_node_limit_to_within_it"]
     }
     fn rule(&self) -> String {
-        "Start terms (binder-heavy specials, three-slot terms whose class gains symmetries stepwise, all terms of size <=2 (thorough 3)) x rule sets (each single rule of the 22-rule pool, 8 chosen pairs/triples, the full pool, the empty set). (1) apply_rewrites up to 5 times: whenever it returns false an independent fingerprint (node count, per-class slots / e-nodes / symmetry count by brute-force eq over all permutations, canonical form of every known invocation) taken before must equal the one taken after. (2) Runner::run and (3) run_eqsat under every combination of iter_limit 0/1/2/5, node_limit 1/10/10000, time_limit 0 / 2 s (far above what any enumerated run needs; the harness clock brackets the call) and hooks none / fail at call 1 / fail at call 2 / fail at 8 nodes / insert a new term on every call / insert and fail at call 2 / union neighbouring classes on every call (the e-graph shrinks; node limits 3..12): report.egraph_nodes equals the e-graph's, iterations <= iter_limit+2, the stop reason is true of the final state (limit really exceeded, hook really failed, TimeLimit only with limit 0 or when the call really lasted that long), and after Saturated one more application of all rules changes nothing and every match of every rule already has equal sides. Non-trivial = runs, distinct states = (reason, iterations, nodes).".into()
+        "Start terms (binder-heavy specials, three-slot terms whose class gains symmetries stepwise, all terms of size <=2 (thorough 3)) x rule sets (each single rule of the model-valid rule pool, 8 chosen pairs/triples, the full pool, the empty set). (1) apply_rewrites up to 5 times: whenever it returns false an independent fingerprint (node count, per-class slots / e-nodes / symmetry count by brute-force eq over all permutations, canonical form of every known invocation) taken before must equal the one taken after. (2) Runner::run and (3) run_eqsat under every combination of iter_limit 0/1/2/5, node_limit 1/10/10000, time_limit 0 / 2 s (far above what any enumerated run needs; the harness clock brackets the call) and hooks none / fail at call 1 / fail at call 2 / fail at 8 nodes / insert a new term on every call / insert and fail at call 2 / union neighbouring classes on every call (the e-graph shrinks; node limits 3..12): report.egraph_nodes equals the e-graph's, iterations <= iter_limit+2, the stop reason is true of the final state (limit really exceeded, hook really failed, TimeLimit only with limit 0 or when the call really lasted that long), and after Saturated one more application of all rules changes nothing and every match of every rule already has equal sides. Non-trivial = runs, distinct states = (reason, iterations, nodes).".into()
     }
     fn assumptions(&self) -> Vec<String> {
         vec!["time limits are only 0 or unbounded, the two values whose outcome does not depend on the wall clock".into()]
